@@ -404,7 +404,13 @@ class FileStorage(
         with the index.  Any invalid record records or inconsistent
         object positions cause zero to be returned.
         """
-        r = self._check_sanity(index, pos)
+        try:
+            r = self._check_sanity(index, pos)
+        except Exception:
+            # A stale index (e.g. one saved before a pack) points into the
+            # middle of records: whatever is read there as a header may not
+            # even decode (CorruptedDataError, UnicodeDecodeError, ...).
+            r = 0
         if not r:
             logger.warning("Ignoring index for %s", self._file_name)
         return r
